@@ -78,6 +78,12 @@ type RangeIter struct {
 	Seen  *Cell // ghost: keys already visited (Array K Bool)
 	MapT  *types.Map
 	IsStr bool
+	// ghost: sum of the values visited so far (numeric maps), and the map's total and content
+	// when the iteration started
+	SeenSum  *Cell
+	StartSum string
+	StartDom string
+	StartVal string
 }
 
 // ---------- state ----------
